@@ -90,7 +90,7 @@ def func_line(path: str, func: str) -> int:
     raise KeyError(f"{func} not in {path}")
 
 
-def _twin_file(path: str, func: str, workdir: str) -> str:
+def _twin_file(path: str, func: str, workdir: str, tag: str = "") -> str:
     """Copy of the harness module in which `func`'s postcondition is False."""
     src = open(path).read().split("\n")
     tree = ast.parse("\n".join(src))
@@ -107,7 +107,7 @@ def _twin_file(path: str, func: str, workdir: str) -> str:
             break
     else:
         raise KeyError(func)
-    out = os.path.join(workdir, os.path.basename(path)[:-3] + f"__twin_{func}.py")
+    out = os.path.join(workdir, os.path.basename(path)[:-3] + f"__twin_{func}_{tag}.py")
     with open(out, "w") as f:
         f.write("\n".join(src))
     return out
@@ -190,8 +190,8 @@ def run_xh(py: str, ob: XH, workdir: str) -> Result:
 
 def run_twin(py: str, ob: XH, workdir: str) -> Result:
     file = os.path.join(HARNESS_DIR, ob.file)
-    tw = _twin_file(file, ob.func, workdir)
     tag = hashlib.sha1(("twin" + ob.name + json.dumps(ob.env, sort_keys=True)).encode()).hexdigest()[:10]
+    tw = _twin_file(file, ob.func, workdir, tag)
     out, rc, dt, counts = _run_crosshair(py, tw, ob.func, min(ob.timeout, 60), ob.path_timeout, ob.env,
                                          os.path.join(workdir, f"cnt_{tag}.json"))
     st, msg, call = _parse_crosshair(out)
